@@ -12,7 +12,24 @@
   when everything fits one batch; which ones otherwise depends on Go's map iteration order over
   `node.Children`, so the theorems quantify over ALL lists).
 
-  What the code guarantees then (proved here, no hypothesis on `hashOf`, `small`, the pool or `wrote`
+  TWO facts about the Go code are ENCODED IN THE MODEL AS CONSTANTS of `Db.flush` (read off
+  trie_database.go:260-321, not derived): (i) every error path returns BEFORE `uncache`
+  (`flushWrite`: `mem := if uncacheAfterWrite then db.mem else kept`) and (ii) every path RUnlocks
+  (`FlushOut.rlocks` is a literal in every branch; nothing models Lock / RLock / RUnlock events).  The
+  statements below that only read those constants back — `commit_releases_lock`,
+  `preimage_fault_leaks_lock_legacy`, and the conjuncts `out.err = true`, `out.db.mem = db.mem` of
+  `failed_flush_keeps_pool` — are DEFINITIONAL (proof `rfl` per branch; they would hold for any Go code).
+  The evidence that the Go code has (i) and (ii) is the harness op `sflushfail` only (`mem=` pool size,
+  error, and the `lockFree` probe: a writer goroutine with a 1.5 s timeout) on the three generator-chosen
+  sites.  The real content of this file: `out.db.node = db.node` (copies of pool blobs on disk do not
+  change `TrieDatabase.Node`) and what follows from it, `flush_retry_eq` / `flush_retry_reopen_fresh`,
+  `flush_prefix_downclosed`, and the history theorem over the pool.  "A failed batch writes nothing of
+  that batch" is a property of the harness's injector (`flakyBatch.Commit`), not of BeansDB
+  (`Queue.PutBatch`: partial append / fsync error are C08's): all fault theorems are about a store that
+  fails ATOMICALLY PER BATCH.  `DOp.flush root` quantifies over all roots including `zeroHash`, where
+  model (no-op) and Go (`Commit(common.Hash{})` batches the `{}` entry) differ; no caller passes it.
+
+  What the MODEL guarantees then (proved here, no hypothesis on `hashOf`, `small`, the pool or `wrote`
   unless stated):
     * `failed_flush_keeps_pool`   the pool is untouched and the abstract store view pool ∪ disk
                                   (`TrieDatabase.Node`) is the same function: every trie operation still
@@ -24,9 +41,10 @@
                                   content a first successful flush would have yielded (`wrote = []`:
                                   literally the same state, `flush_retry_eq_single`), so
                                   `flush_retry_reopen_fresh`: a FRESH TrieDatabase over the disk serves it;
-    * `commit_releases_lock`      every outcome (ok / fault at the preimage flush / at a node flush / at the
-                                  final write) returns with the read lock released (code since /repo
-                                  228c7d3; `preimage_fault_leaks_lock_legacy` for the code before);
+    * `commit_releases_lock`      DEFINITIONAL, not registered: reads back the literal `rlocks := 0` of every
+                                  branch of `Db.flush` (`preimage_fault_leaks_lock_legacy`: the other literal);
+                                  that the CODE releases the lock on every path is the `lockFree` probe of
+                                  `sflushfail`, not a theorem;
     * `mixed_run_with_faults`     the history theorem over the POOL (`Db`) with succeeding and FAILING
                                   flushes and fresh re-openings interleaved with updates, deletes, reads,
                                   commits, hash calls and re-openings.
@@ -351,7 +369,10 @@ end retry
 
 /-! ### the lock -/
 
-/-- **commit_releases_lock** (code since /repo 228c7d3): whatever the outcome of
+/-- **commit_releases_lock** — DEFINITIONAL bookkeeping fact (`FlushOut.rlocks` is a literal in every branch of
+    `Db.flush`; `rfl` per branch; no Lock/RUnlock events are modelled, so this holds for any Go code; the evidence for
+    the code is the harness probe `lockFree`).  Not registered as a theorem of the property.
+    Reading (code since /repo 228c7d3): whatever the outcome of
     `TrieDatabase.Commit` — success, fault at the preimage flush, at an intermediate node flush, at
     the final write — the call returns with the read lock of the TrieDatabase released. -/
 theorem commit_releases_lock (c : FlushCode) (hc : c.preimageUnlocks = true) (db : Db) (root : Hash)
